@@ -23,6 +23,15 @@ TABLE_IDS = [None, None, "tid-1", "ид 7", "x/y"]
 GROUP_MD = [None, None, None, {"tree": ("newick", "((a,b),c);")},
             {"tree": ("newick", "(é,ö);"), "rel": ("text", "s1<s2")}]
 ROUTES = core.ROUTES + ["sort_order", "subsample_full", "filter_half", "accessors", "copy", "dok"]
+# histories that WRITE the table once, change it in place, and then write it again (the second file is the
+# one that is checked): nothing a first write leaves behind may leak into the second file
+REWRITE_OPS = ["transform_obs", "transform_samp", "norm_obs", "norm_samp", "pa", "rankdata_obs", "rankdata_samp",
+               "filter_obs", "filter_samp", "update_ids_obs", "update_ids_samp", "add_metadata_obs",
+               "add_metadata_samp", "nothing"]
+EXTRA_ROUTES = ["rewrite:" + op for op in REWRITE_OPS] + ["reloaded", "reloaded", "planted_zero:data",
+                                                          "planted_zero:setitem", "planted_zero:data"]
+OWN_HEADERS = [None, None, {"generated_by": "previous writer", "create_date": [2011, 11, 11, 11, 11, 11, 11]},
+               {"generated_by": "öwn", "create_date": None}, {"generated_by": "", "create_date": [2000, 1, 1, 0, 0, 0, 0]}]
 
 
 # ----------------------------------------------------------------------------- observation of a table
@@ -46,10 +55,10 @@ def md_val(v):
             if isinstance(x, bytes):
                 x = x.decode("utf8")
             if not isinstance(x, str):
-                return {"t": "unmodelled", "v": repr(v)}
+                return {"t": "text", "v": "<unmodelled value> " + repr(v)}
             out.append(str(x))
         return {"t": "list", "v": out}
-    return {"t": "unmodelled", "v": repr(v)}
+    return {"t": "text", "v": "<unmodelled value> " + repr(v)}
 
 
 def md_obs(md):
@@ -80,7 +89,10 @@ def src_obs(t):
             "rows": dense_rows(t),
             "omd": md_obs(t.metadata(axis="observation")), "smd": md_obs(t.metadata()),
             "type": t.type, "table_id": t.table_id,
-            "ogmd": gmd_src(t.group_metadata("observation")), "sgmd": gmd_src(t.group_metadata("sample"))}
+            "ogmd": gmd_src(t.group_metadata("observation")), "sgmd": gmd_src(t.group_metadata("sample")),
+            "own_generated_by": None if t.generated_by is None else str(t.generated_by),
+            "own_create_date": None if t.create_date is None else
+            (t.create_date.isoformat() if hasattr(t.create_date, "isoformat") else str(t.create_date))}
 
 
 # ----------------------------------------------------------------------------- raw h5py view
@@ -127,7 +139,7 @@ def dset_json(d):
             out.update(d=1, cells=[_cell(kind, x) for x in arr])
         elif d.ndim == 2:
             out.update(d=2, ncol=int(d.shape[1]), cells=[[_cell(kind, x) for x in row] for row in arr])
-    except UnicodeDecodeError:
+    except Exception:                 # noqa: BLE001 — undecodable bytes, NaN/inf, …: an unreadable dataset
         out = {"kind": "other", "data_type": out["data_type"], "d": 0}
     return out
 
@@ -155,7 +167,10 @@ def raw_tree(path):
     import h5py
 
     def named(g):
-        return [[str(k), dset_json(v)] for k, v in g.items() if isinstance(v, h5py.Dataset)]
+        # anything that is not a dataset (e.g. a nested group created by an unescaped '/') is reported as an
+        # unreadable node of kind `other`
+        return [[str(k), dset_json(v) if isinstance(v, h5py.Dataset) else
+                 {"kind": "other", "data_type": None, "d": 0, "node": type(v).__name__}] for k, v in g.items()]
 
     def ax(f, name):
         if name not in f or not isinstance(f[name], h5py.Group):
@@ -270,19 +285,27 @@ def gen_case(rng, quick=True, empty_axes=True):
     big = 6 if quick else 9
     n = rng.choice([1, 2, 2, 3, 3, 4, 5, big])
     m = rng.choice([1, 2, 2, 3, 3, 4, 5, big])
-    if empty_axes and rng.random() < 0.08:
+    classes = rng.choice([("count",), ("count", "dyadic"), ("neg", "dyadic"), ("big", "tiny"), ("bits",),
+                          core.VALUE_CLASSES, ("smallcount",)])
+    route = rng.choice(ROUTES + EXTRA_ROUTES)
+    density = rng.choice([0.0, 0.15, 0.3, 0.5, 0.5, 0.8, 0.8, 1.0, 1.0])
+    if route == "subsample_full":
+        classes = rng.choice([("count",), ("smallcount",)])      # counts: subsampling needs integers
+    elif route.startswith("rewrite:"):
+        classes = rng.choice([("count",), ("count", "dyadic"), ("neg", "dyadic"), ("neg", "count")])
+        density = rng.choice([0.3, 0.5, 0.8, 1.0])
+        n, m = max(n, 2), max(m, 2)
+    elif route.startswith("planted_zero"):
+        classes = rng.choice([("neg", "dyadic"), ("neg", "count"), ("neg",)])   # signed values
+        density = rng.choice([0.5, 0.8, 1.0])
+        n, m = max(n, 2), max(m, 2)
+    elif empty_axes and rng.random() < 0.1:
         if rng.random() < 0.5:
             n = 0
         else:
             m = 0
-    classes = rng.choice([("count",), ("count", "dyadic"), ("neg", "dyadic"), ("big", "tiny"), ("bits",),
-                          core.VALUE_CLASSES, ("smallcount",)])
-    route = rng.choice(ROUTES)
-    if route == "subsample_full":
-        classes = rng.choice([("count",), ("smallcount",)])      # counts: subsampling needs integers
     obs = gen_ids(rng, n, "O")
     samp = gen_ids(rng, m, "S")
-    density = rng.choice([0.0, 0.15, 0.3, 0.5, 0.5, 0.8, 0.8, 1.0, 1.0])
     spec = {"obs": obs, "samp": samp, "rows": core.gen_grid(rng, n, m, density, classes) if n and m else [[] for _ in range(n)],
             "omd": gen_md(rng, obs, "observation"), "smd": gen_md(rng, samp, "sample"),
             "type": rng.choice(core.TYPES), "table_id": rng.choice(TABLE_IDS)}
@@ -291,11 +314,85 @@ def gen_case(rng, quick=True, empty_axes=True):
             "date": rng.choice([None, [2020, 1, 2, 3, 4, 5, 0], [1999, 12, 31, 23, 59, 59, 999999],
                                 [2031, 7, 9, 0, 0, 0, 120]]),
             "ogmd": rng.choice(GROUP_MD), "sgmd": rng.choice(GROUP_MD),
+            # header values the table object itself carries; the file must get the writer's ARGUMENTS
+            "own": rng.choice(OWN_HEADERS),
             "writer": rng.choice(["to_hdf5", "to_hdf5", "to_hdf5", "save_table", "convert"])}
     return case
 
 
-def build_table(case):
+def _scratch_write(t, tmp, gen_by="first writer", date=None):
+    """a first, unobserved write of `t` with the real code (its file is removed at once)"""
+    import h5py
+    path = os.path.join(tmp, "first_%d.biom" % os.getpid())
+    fresh(path)
+    try:
+        with h5py.File(path, "w") as f:
+            t.to_hdf5(f, gen_by, creation_date=date)
+    finally:
+        if os.path.exists(path):
+            os.remove(path)
+
+
+def _rewrite(t, op, spec, rng, tmp):
+    """write once, modify IN PLACE, hand the table back for the second (observed) write"""
+    import numpy as np
+    _scratch_write(t, tmp)
+    axis = "observation" if op.endswith("_obs") else "sample"
+    ids = list(t.ids(axis=axis))
+    with np.errstate(all="ignore"):
+        if op.startswith("transform"):
+            t.transform(lambda v, i, md: v * 0.5 + 0.0, axis=axis, inplace=True)
+        elif op.startswith("norm"):
+            if (t.matrix_data.data < 0).any() or t.matrix_data.nnz == 0 or (np.asarray(t.sum(axis=axis)) == 0).any():
+                t.transform(lambda v, i, md: v * 4.0, axis=axis, inplace=True)
+            else:
+                t.norm(axis=axis, inplace=True)
+        elif op == "pa":
+            t.pa(inplace=True)
+        elif op.startswith("rankdata"):
+            t.rankdata(axis=axis, inplace=True)
+        elif op.startswith("filter"):
+            keep = [x for k, x in enumerate(ids) if (k + rng.randint(0, 1)) % 2 == 0] or ids[:1]
+            t.filter(keep, axis=axis, inplace=True)
+        elif op.startswith("update_ids"):
+            t.update_ids({x: x + "'" for x in ids}, axis=axis, inplace=True)
+        elif op.startswith("add_metadata"):
+            t.add_metadata({x: {"added": "v%d" % k} for k, x in enumerate(ids)}, axis=axis)
+        elif op == "nothing":
+            pass
+        else:
+            raise ValueError(op)
+    return t
+
+
+def _plant_zero(t, how, rng):
+    """a stored zero planted through the public `matrix_data` handle after construction, next to a negative value"""
+    import warnings
+    m = t.matrix_data
+    if m.nnz < 2:
+        return t, False
+    k = rng.randrange(m.nnz)
+    others = [q for q in range(m.nnz) if q != k]
+    if not any(m.data[q] < 0 for q in others):
+        m.data[rng.choice(others)] = -3.0            # keep a negative value in the table
+    if how == "data":
+        m.data[k] = 0.0
+    else:
+        coo = m.tocoo()
+        i, j = int(coo.row[k]), int(coo.col[k])
+        if float(m[i, j]) < 0 and sum(1 for v in m.data if v < 0) < 2:
+            k2 = others[0]
+            i, j = int(coo.row[k2]), int(coo.col[k2])
+            if float(m[i, j]) < 0:
+                return t, False
+        with warnings.catch_warnings():
+            warnings.simplefilter("ignore")
+            m[i, j] = 0.0
+    planted = bool((t.matrix_data.data == 0).any()) and bool((t.matrix_data.data < 0).any())
+    return t, planted
+
+
+def build_table(case, tmp=None):
     """materialise a case through its layout route / operation history; returns the table to write"""
     import random
     import numpy as np
@@ -305,11 +402,18 @@ def build_table(case):
     route = case["route"]
     n, m = len(spec["obs"]), len(spec["samp"])
     rng = random.Random(case["perm_seed"])
+    tmp = tmp or os.path.join(TMP, str(os.getpid()))
+    os.makedirs(tmp, exist_ok=True)
 
-    def with_gmd(t):
-        t._observation_group_metadata = copy.deepcopy(case.get("ogmd"))
-        t._sample_group_metadata = copy.deepcopy(case.get("sgmd"))
-        t._cast_metadata()
+    def finish(t, gmd=True):
+        if gmd:
+            t._observation_group_metadata = copy.deepcopy(case.get("ogmd"))
+            t._sample_group_metadata = copy.deepcopy(case.get("sgmd"))
+            t._cast_metadata()
+        own = case.get("own")
+        if own:
+            t.generated_by = own["generated_by"]
+            t.create_date = None if own["create_date"] is None else datetime.datetime(*own["create_date"])
         return t
 
     if n == 0 or m == 0:
@@ -319,9 +423,32 @@ def build_table(case):
             else np.zeros((n, m))
         t = Table(arr, spec["obs"], spec["samp"], copy.deepcopy(spec.get("omd")), copy.deepcopy(spec.get("smd")),
                   type=spec.get("type"), table_id=spec.get("table_id"))
-        return with_gmd(t)
+        return finish(t)
     if route in core.ROUTES:
-        return with_gmd(core.build(spec, route))
+        return finish(core.build(spec, route))
+    if route.startswith("rewrite:"):
+        t = finish(core.build(spec, rng.choice(["csr", "csc", "dense", "coo"])))
+        return _rewrite(t, route.split(":", 1)[1], spec, rng, tmp)
+    if route.startswith("planted_zero"):
+        t = finish(core.build(spec, rng.choice(["csr", "csc", "dense"])))
+        t, planted = _plant_zero(t, route.split(":", 1)[1], rng)
+        case["_planted"] = planted
+        return t
+    if route == "reloaded":
+        # the table that is written was itself loaded from a file: it carries that file's generated-by and date
+        import h5py
+        import biom
+        first = finish(core.build(spec, "dense"))
+        path = os.path.join(tmp, "first_%d.biom" % os.getpid())
+        fresh(path)
+        try:
+            with h5py.File(path, "w") as f:
+                first.to_hdf5(f, "first writer", creation_date=datetime.datetime(2001, 2, 3, 4, 5, 6))
+            t = biom.load_table(path)
+        finally:
+            if os.path.exists(path):
+                os.remove(path)
+        return t
     base = core.build(spec, "dense")
     if route == "dok":
         arr = np.array(spec["rows"], dtype=float).reshape(n, m)
@@ -354,7 +481,7 @@ def build_table(case):
         t = base.copy()
     else:
         raise ValueError(route)
-    return with_gmd(t)
+    return finish(t)
 
 
 def case_date(case):
@@ -392,22 +519,43 @@ def fresh(path):
         os.remove(path)
 
 
+class Unobservable(Exception):
+    """the real code raised where the property says it must not (writing a table of the domain, reading the
+    written file back raw): an observation, reported as a violation by the caller"""
+
+    def __init__(self, stage, exc, src=None):
+        Exception.__init__(self, "%s: %s: %s" % (stage, type(exc).__name__, str(exc)[:300]))
+        self.stage = stage
+        self.exc_name = type(exc).__name__
+        self.src = src
+
+
+def prepare(case, tmp):
+    """build the table (history included) and observe it; -> (table, src observation, scipy fallback views)"""
+    t = build_table(case, tmp)
+    if case["writer"] == "convert" and case["spec"].get("type") is None:
+        # `_convert` sets the type before writing: the table that is written is the one after that
+        t.type = "Table" if t.type in (None, "None") else t.type
+    src = src_obs(t)
+    pre = scipy_views(t)
+    return t, src, pre
+
+
 def write_and_read_raw(case, tmp=TMP, tag="c"):
-    """-> (src observation, scipy fallback views, raw tree, generated_by, date) ; file removed"""
-    t = build_table(case)
+    """-> (src observation, scipy fallback views, raw tree, generated_by, date) ; file removed.
+    Raises Unobservable when the writer or the raw re-read raises."""
+    t, src, pre = prepare(case, tmp)
     path = os.path.join(tmp, "%s_%d.biom" % (tag, os.getpid()))
     fresh(path)
-    pre = None
     try:
-        if case["writer"] == "convert":
-            # `_convert` sets the type before writing: the table that is written is the one after that
-            from biom.cli.table_converter import _convert  # noqa: F401
-            if case["spec"].get("type") is None:
-                t.type = "Table" if t.type in (None, "None") else t.type
-        src = src_obs(t)
-        pre = scipy_views(t)
-        gen_by, date = write_file(case, t, path)
-        raw = raw_tree(path)
+        try:
+            gen_by, date = write_file(case, t, path)
+        except Exception as e:                      # noqa: BLE001
+            raise Unobservable("write", e, src)
+        try:
+            raw = raw_tree(path)
+        except Exception as e:                      # noqa: BLE001
+            raise Unobservable("raw-read", e, src)
     finally:
         if os.path.exists(path):
             os.remove(path)
@@ -433,6 +581,8 @@ def nontrivial(src):
 
 def tags_of(case, src):
     tags = ["route=" + case["route"], "writer=" + case["writer"], "compress=%s" % case["compress"]]
+    if case.get("own"):
+        tags.append("table-carries-own-generated_by")
     if not src["obs"] or not src["samp"]:
         tags.append("empty-axis")
     if any(ord(ch) > 127 for i in src["obs"] + src["samp"] for ch in i):
@@ -441,10 +591,20 @@ def tags_of(case, src):
 
 
 def check_case(ctx, case, tmp=TMP):
-    src, pre, raw, gen_by, date = write_and_read_raw(case, tmp)
+    if hasattr(ctx, "journal"):
+        ctx.journal({"case": case})
+    try:
+        src, pre, raw, gen_by, date = write_and_read_raw(case, tmp)
+    except Unobservable as u:
+        ctx.case({"case": case, "unobservable": u.stage}, nontrivial=False)
+        ctx.fail({"case": case}, "C04.%s-raised" % u.stage, ["route=" + case["route"], "writer=" + case["writer"],
+                                                            "exc=" + u.exc_name], detail={"what": str(u), "src": u.src})
+        return None
     req = request(case, src, pre, raw, gen_by, date)
     r = ctx.driver.ask(req)
     tags = tags_of(case, src)
+    if case.get("_planted"):
+        ctx.count("stored zero planted next to a negative value before the write")
     ctx.case({"src": src, "gen": gen_by, "date": req["date"], "raw": raw}, nontrivial=nontrivial(src))
     for tg in tags:
         ctx.count(tg)
@@ -525,7 +685,7 @@ def cli_case(ctx, case, tmp=TMP):
     import biom.cli
     from biom.parse import generatedby
     from click.testing import CliRunner
-    t = build_table(dict(case, route="dense", ogmd=None, sgmd=None))
+    t = build_table(dict(case, route="dense", ogmd=None, sgmd=None), tmp)
     src_path = os.path.join(tmp, "in_%d.json" % os.getpid())
     out_path = os.path.join(tmp, "out_%d.biom" % os.getpid())
     fresh(src_path); fresh(out_path)
